@@ -19,12 +19,13 @@ Ltac zb_eqb a b :=
   first [ rewrite (proj2 (Z.eqb_eq a b)) by lia
         | rewrite (proj2 (Z.eqb_neq a b)) by lia
         | destruct (Z.eqb_spec a b) ].
+Ltac no_if t := lazymatch t with context [if _ then _ else _] => fail | _ => idtac end.
 Ltac zb :=
   repeat (match goal with
           | |- context [Z.geb ?a ?b] => rewrite (Z.geb_leb a b)
-          | |- context [Z.ltb ?a ?b] => zb_ltb a b
-          | |- context [Z.leb ?a ?b] => zb_leb a b
-          | |- context [Z.eqb ?a ?b] => zb_eqb a b
+          | |- context [Z.ltb ?a ?b] => no_if a; no_if b; zb_ltb a b
+          | |- context [Z.leb ?a ?b] => no_if a; no_if b; zb_leb a b
+          | |- context [Z.eqb ?a ?b] => no_if a; no_if b; zb_eqb a b
           end; cbv iota).
 
 Lemma wrap1_mod n x : 0 < n -> - n <= x < 2 * n -> wrap1 n x = x mod n.
